@@ -269,8 +269,11 @@ def l1Rule (maxOrder : Nat → Option Nat) (rule : Nat → Nat → Except Err Ru
   | .error e => .error e
 
 /-- every L1 mode resolves, in every dimension that has Gauss tables, to a proved rule -/
-def checkL1 (accepted : List (Nat × Nat)) (cornerDims : List Nat) (src : L1Mode → Except Err RuleSource) : Bool :=
-  L1Mode.all.all fun mode => accepted.all fun p =>
+def checkL1 (accepted : List (Nat × Nat)) (cornerDims : List Nat) (src : L1Mode → Except Err RuleSource)
+    (loopPlain : Bool) : Bool :=
+  -- `loopPlain`: between the rule call and the return, `transport_density` does nothing but
+  -- `for pt, w in zip(pts, weights): density += w * norm(face_to_cell(flux, pt))` (extracted structurally from the source)
+  loopPlain && L1Mode.all.all fun mode => accepted.all fun p =>
     match src mode with
     | .ok (.cell (.n k)) => decide ((p.1, k) ∈ accepted)
     | .ok (.cell .max) => true
